@@ -474,6 +474,36 @@ def run(facts, rep, cfg="default"):
     # a site whose exact key is unknown may have MOVED (code extracted into a helper, a function split into phases): it is
     # matched with a listed site of the same kind and expression that no longer exists where it was listed.  Machine-checked
     # dispositions (guarded / invariant / precondition) are re-verified at the new location.
+    # sites of one function that print alike (`[$1]` #1..#4) are told apart by their dataflow signature rather than by their
+    # order in the source: reordering code inside a function does not shuffle their dispositions
+    sigs0 = load_sigs()
+    groups = {}
+    for s in inv:
+        groups.setdefault(s["key"].rsplit("|#", 1)[0], []).append(s)
+    for gbase, members in groups.items():
+        if len(members) < 2:
+            continue
+        listed = [k for k in disp if k.rsplit("|#", 1)[0] == gbase and k in sigs0]
+        if len(listed) < 2:
+            continue
+        msig = {id(s): site_sig(facts.bodies[s["fn"]], s) for s in members}
+        free_keys = list(listed)
+        assign = {}
+        for s in members:
+            hits = [k for k in free_keys if sigs0[k] == msig[id(s)]]
+            if len(hits) >= 1 and not msig[id(s)].startswith(("error", "other")):
+                # several listed sites may share a signature: keep source order among equals
+                assign[id(s)] = hits[0]
+                free_keys.remove(hits[0])
+        rest = [s for s in members if id(s) not in assign]
+        unused = sorted(set(k for k in disp if k.rsplit("|#", 1)[0] == gbase) - set(assign.values()), key=lambda k: int(k.rsplit("#", 1)[1]))
+        for s, k in zip(rest, unused):
+            assign[id(s)] = k
+        spare_n = len(unused)
+        for i, s in enumerate(rest[spare_n:]):
+            assign[id(s)] = gbase + "|#%d" % (1000 + i)  # more sites than listed keys: genuinely new ones
+        for s in members:
+            s["key"] = assign[id(s)]
     exact = {s["key"] for s in inv}
     def base_of(k):
         parts = k.split("|")
